@@ -143,6 +143,7 @@ func verifyFunction(p *Program, fn *ssa.Function, c *Contract) (s *Session, err 
 	}
 	f.run(&BState{"true", s.entry.clone()})
 	f.finishRecover()
+	s.buildInputs()
 	if c.Recover {
 		// the deferred closure must call recover() on every path, so no panic leaves the function
 		s.addObl(&Obligation{Name: c.Key() + "#recover-unconditional", Kind: "structure", Guard: "true", Goal: boolTerm(recoverUnconditional(fn)),
